@@ -1,0 +1,16 @@
+//go:build verif
+
+package cnf
+
+// Contracts for the deductive checker in /verif (comment-only; compiled only under the verif tag).
+
+// A set is qualified exactly when all its members are shareholders and it is contained in NONE of the maximal
+// unqualified sets (every clause is checked, for any number of clauses).
+//@ pure func idsIn(ids []ID, y V) bool = exists j int :: 0 <= j && j < len(ids) && box(ids[j]) == y
+//@ func (*CNF).IsQualified
+//@   property C02
+//@   uses sets
+//@   ensures c == nil || c.shareholders == nil ==> !result
+//@   ensures c != nil && c.shareholders != nil ==> result == ((forall y V :: idsIn(ids, y) ==> sin(sset(c.shareholders), y)) && forall k int :: 0 <= k && k < len(c.maximalUnqualifiedSets) ==> !(forall y V :: idsIn(ids, y) ==> sin(sset(c.maximalUnqualifiedSets[k]), y)))
+//@   loop range(c.maximalUnqualifiedSets)
+//@     invariant forall k int :: 0 <= k && k < $i ==> !(forall y V :: sin(sset(idSet), y) ==> sin(sset(c.maximalUnqualifiedSets[k]), y))
